@@ -15,7 +15,7 @@ use crate::{
     GDErrorKind,
     GDResult,
 };
-use std::collections::HashMap;
+use std::collections::{BTreeMap, HashMap};
 use std::net::SocketAddr;
 
 /// Send status request, and parse response into HashMap.
@@ -98,8 +98,10 @@ fn get_server_values_impl(socket: &mut UdpSocket) -> GDResult<HashMap<String, St
     Ok(server_values)
 }
 
-fn extract_players(server_vars: &mut HashMap<String, String>, players_maximum: u32) -> GDResult<Vec<Player>> {
-    let mut players_data: Vec<HashMap<String, String>> = Vec::with_capacity(players_maximum as usize);
+fn extract_players(server_vars: &mut HashMap<String, String>) -> GDResult<Vec<Player>> {
+    // Keyed by the player's index: the memory used depends on the fields received, not on the
+    // (server provided) index values or the maximum player count.
+    let mut players_data: BTreeMap<usize, HashMap<String, String>> = BTreeMap::new();
 
     server_vars.retain(|key, value| {
         let split: Vec<&str> = key.split('_').collect();
@@ -124,18 +126,24 @@ fn extract_players(server_vars: &mut HashMap<String, String>, players_maximum: u
             return true;
         }
 
-        if id >= players_data.len() {
-            let others = vec![HashMap::new(); id - players_data.len() + 1];
-            players_data.extend_from_slice(&others);
-        }
-        players_data[id].insert(kind.to_string(), value.to_string());
+        players_data
+            .entry(id)
+            .or_default()
+            .insert(kind.to_string(), value.to_string());
 
         false
     });
 
+    // A skipped index is a player without any field (and so without a name)
+    if let Some(last_index) = players_data.keys().next_back() {
+        if *last_index + 1 != players_data.len() {
+            return Err(GDErrorKind::PacketBad.context("Missing player index"));
+        }
+    }
+
     let mut players: Vec<Player> = Vec::with_capacity(players_data.len());
 
-    for player_data in players_data {
+    for player_data in players_data.into_values() {
         let new_player = Player {
             name: match player_data.get("player") {
                 Some(v) => v.clone(),
@@ -210,7 +218,7 @@ pub fn query(address: &SocketAddr, timeout_settings: Option<TimeoutSettings>) ->
         Some(v) => Some(v.parse::<u8>().map_err(|e| TypeParse.context(e))?),
     };
 
-    let players = extract_players(&mut server_vars, players_maximum)?;
+    let players = extract_players(&mut server_vars)?;
 
     Ok(Response {
         name: server_vars
